@@ -233,6 +233,8 @@ def build(S: Sources) -> Unit:
     vfiles = guarded(lambda: cmp_file(S), errs, [])
     from units import cli_common
     vfiles = vfiles + guarded(lambda: cli_common.cfg_files(S, {"C16"}, "c16"), errs, [])
+    from units import pipeline_common
+    vfiles = vfiles + guarded(lambda: pipeline_common.pipeline_files(S, {"C16"}, "c16"), errs, [])
     hs = [
         KaniHarness("verif_c16::int_arg_names_by_value", "bounded", bound="integer names of 1-2 digits with optional minus sign (every pair of different value)",
                     covers="SortingAttr::cmp_bench_arg_names (integer arguments, name and kind attributes)"),
